@@ -76,6 +76,11 @@ def ratio_grid(r2, thorough, rnd):
     # beyond every integer rep, still a double
     out.append(Ratio("10^30", model.power(model.mag_from_fraction(10), 30), "au::pow<30>(au::mag<10>())"))
     out.append(Ratio("10^-30", model.power(model.mag_from_fraction(10), -30), "au::pow<-30>(au::mag<10>())"))
+    # beyond double (and, for the last two, beyond long double): the answers are still "no" / "yes", never a hard error
+    out.append(Ratio("10^400", model.power(model.mag_from_fraction(10), 400), "au::pow<400>(au::mag<10>())"))
+    out.append(Ratio("10^-400", model.power(model.mag_from_fraction(10), -400), "au::pow<-400>(au::mag<10>())"))
+    out.append(Ratio("10^5000", model.power(model.mag_from_fraction(10), 5000), "au::pow<5000>(au::mag<10>())"))
+    out.append(Ratio("10^-5000", model.power(model.mag_from_fraction(10), -5000), "au::pow<-5000>(au::mag<10>())"))
     out.append(Ratio("pi", {model.PI_ID: Fraction(1)}, "au::Magnitude<au::Pi>{}"))
     out.append(Ratio("sqrt2", {2: Fraction(1, 2)}, "au::root<2>(au::mag<2>())"))
     seen = set()
@@ -102,7 +107,7 @@ def build_items(ctx, rnd):
         for r2 in REPS10:
             grid = ratio_grid(r2, ctx.thorough, rnd)
             if not ctx.thorough:
-                keep = [g for g in grid if rnd.random() < 0.45 or g.name in ("1", "10^30")]
+                keep = [g for g in grid if rnd.random() < 0.45 or g.name in ("1", "10^30", "10^400", "10^-400", "10^5000")]
                 grid = keep
             for ratio in grid:
                 triples.append((r1, r2, ratio))
@@ -114,17 +119,21 @@ def build_items(ctx, rnd):
         items.append(witness.Item("conv:" + key, h + "static_assert(std::is_convertible<QA, QB>::value == %s, \"is_convertible\");\n"
                                   "static_assert(std::is_constructible<QB, QA>::value == %s, \"is_constructible\");" % (b, b),
                                   "accept", None, dict(desc="is_convertible<Quantity<A,%s>, Quantity<B,%s>> with A/B = %s must be %s and must not be a hard error" % (r1, r2, ratio.name, b), exp=exp)))
-        items.append(witness.Item("ovl:" + key, h + "char (&f(QB))[2]; char (&f(...))[1];\nstatic_assert(sizeof(f(std::declval<QA>())) == %d, \"overload resolution\");" % (2 if exp else 1),
+        # (a floating target that cannot even hold the factor has no conversion to speak of: the
+        #  predicate is still asked above, the conversion itself is outside the quantifier)
+        huge = ratio.name in ("10^400", "10^-400", "10^5000", "10^-5000")
+        if not (huge and model.is_fp(r2)):
+          items.append(witness.Item("ovl:" + key, h + "char (&f(QB))[2]; char (&f(...))[1];\nstatic_assert(sizeof(f(std::declval<QA>())) == %d, \"overload resolution\");" % (2 if exp else 1),
                                   "accept", None, dict(desc="overload resolution f(Quantity<B,%s>) vs fallback with a Quantity<A,%s>, A/B = %s" % (r2, r1, ratio.name), exp=exp)))
-        # copy-initialisation compiles iff predicate
-        items.append(witness.Item("init:" + key, h + "void w() { QA a = au::make_quantity<A>(R1{1}); QB b = a; (void)b; }",
+          # copy-initialisation compiles iff predicate
+          items.append(witness.Item("init:" + key, h + "void w() { QA a = au::make_quantity<A>(R1{1}); QB b = a; (void)b; }",
                                   "accept" if exp else "reject", None, dict(desc="copy-initialisation Quantity<B,%s> = Quantity<A,%s>, A/B = %s" % (r2, r1, ratio.name), exp=exp)))
-        if r1 == r2:
+        if r1 == r2 and not (huge and model.is_fp(r1)):
             e2 = model.implicit_ok(ratio.mag, r1, r1)
             items.append(witness.Item("as:" + key, h + "void w() { QA a = au::make_quantity<A>(R1{1}); (void)a.as(B{}); (void)a.in(B{}); }",
                                       "accept" if e2 else "reject", None, dict(desc="unit-only .as/.in with rep %s, A/B = %s" % (r1, ratio.name), exp=e2)))
         # mixed-unit + and < : both operands must be implicitly convertible to the common type
-        if model.mag_is_rational(ratio.mag):
+        if model.mag_is_rational(ratio.mag) and not (huge and model.is_fp(model.common_type(r1, r2))):
             rc = model.common_type(r1, r2)
             cm = model.common_mag(ratio.mag, {})
             ka, kb = model.div(ratio.mag, cm), model.div({}, cm)
@@ -139,6 +148,18 @@ def build_items(ctx, rnd):
                                   "static_assert(std::is_convertible<PA, PB>::value == %s, \"point is_convertible\");\n"
                                   "static_assert(std::is_constructible<PB, PA>::value == %s, \"point is_constructible\");" % (b, b),
                                   "accept", None, dict(desc="is_convertible<QuantityPoint<A,%s>, QuantityPoint<B,%s>> (equal origins), A/B = %s must be %s, no hard error" % (r1, r2, ratio.name, b), exp=exp)))
+    # "exactly when the dimensions match": the same ratios between units of ANOTHER dimension - in
+    # particular ratio 1, where the integer-promotion carve-out applies - must answer no, softly
+    for r1 in REPS10:
+        for r2 in sorted({r1, "int64_t", "uint8_t", "double"}):
+            for nm, mg in (("1", "au::mag<1>()"), ("1000", "au::mag<1000>()"), ("1/1000", "au::mag<1>() / au::mag<1000>()")):
+                h = ("using R1 = %s; using R2 = %s;\nstruct B : au::UnitImpl<au::Length> {};\nstruct A : decltype(au::UnitImpl<au::Time>{} * (%s)) {};\n"
+                     "using QA = au::Quantity<A, R1>; using QB = au::Quantity<B, R2>; using PA = au::QuantityPoint<A, R1>; using PB = au::QuantityPoint<B, R2>;\n" % (r1, r2, mg))
+                items.append(witness.Item("otherdim:%s->%s@%s" % (r1, r2, nm), h +
+                                          "static_assert(!std::is_convertible<QA, QB>::value && !std::is_constructible<QB, QA>::value, \"quantity\");\n"
+                                          "static_assert(!std::is_convertible<PA, PB>::value && !std::is_constructible<PB, PA>::value, \"point\");\n"
+                                          "char (&f(QB))[2]; char (&f(...))[1];\nstatic_assert(sizeof(f(std::declval<QA>())) == 1, \"overload resolution\");",
+                                          "accept", None, dict(desc="Quantity / QuantityPoint of another dimension (Time -> Length), reps %s -> %s, magnitude ratio %s: not convertible, not constructible, fallback overload chosen, no hard error" % (r1, r2, nm), exp=False)))
     # documented point examples with different origins (quantity_point.hh)
     doc = [
         ("au::QuantityPoint<au::Milli<au::Meters>, int>", "au::QuantityPoint<au::Meters, int>", False),
